@@ -205,7 +205,7 @@ var C04Variants = []string{"unmarshal", "stream", "indent"}
 // roundTrippable: constructions without lossy features (checked structurally; encoding/json's own round trip is the final filter)
 func roundTrippable(d tygen.Desc) bool {
 	switch d.Leaf {
-	case "MarshalerV", "MarshalerP", "TextV", "TextP", "Raw", "Empty":
+	case "MarshalerV", "MarshalerP", "TextV", "TextP", "Raw", "Empty", "BothP", "BothV":
 		return false
 	}
 	for i, s := range d.Steps {
